@@ -126,7 +126,7 @@ func partList(unique bool, tree part.Ops[object], key index.Key) (tableIndexIter
 		// Doing a Get() is more efficient than constructing an iterator.
 		obj, watch, ok := tree.Get(key)
 		if ok {
-			return &singletonTableIndexIterator{key, obj}, watch
+			return &singletonTableIndexIterator{key: key, obj: obj, found: true}, watch
 		}
 		return emptyTableIndexIterator, watch
 	}
@@ -622,12 +622,13 @@ func newNonUniqueLowerBoundPartIterator(iter part.Iterator[object], searchKey []
 }
 
 type singletonTableIndexIterator struct {
-	key []byte
-	obj object
+	key   []byte
+	obj   object
+	found bool
 }
 
 func (s *singletonTableIndexIterator) All(yield func([]byte, object) bool) {
-	if s.key != nil {
+	if s.found {
 		yield(s.key, s.obj)
 	}
 }
